@@ -28,6 +28,8 @@ CFG = """SPECIFICATION Spec
 INVARIANT PreExistingSafe
 INVARIANT RefusedIsFinal
 INVARIANT OneEntryPerDestination
+INVARIANT StepsAgree
+INVARIANT FinalAgrees
 PROPERTY UntouchedUntilFinalise
 PROPERTY NeverOverwrites
 PROPERTY FinalisedAtDone
@@ -46,6 +48,7 @@ class Faults:
         self.log = []
         self.halt_after = None     # halt before primitive number halt_after + 1
         self.active = False
+        self.make_exc = _Halt      # what the k-th boundary raises (c07_cli also uses KeyboardInterrupt / OSError)
         self.orig = (fw.shutil, fw.os, fw._open)
         outer = self
 
@@ -77,7 +80,7 @@ class Faults:
         if not self.active:
             return
         if self.halt_after is not None and len(self.log) >= self.halt_after:
-            raise _Halt()
+            raise self.make_exc()
         self.log.append(kind)
 
     def restore(self):
